@@ -499,6 +499,15 @@ def run(ctx):
     from ..sharedstate import shared_default_rule
     shared_default_rule(ctx, "R06.7", ("wavespectra.estimators",))
     ctx.require_count("R06.7", 1)
+    # ------------------------------------------------------------------ R06.8 every frequency is solved from its own moments
+    # "the variants agree" and "rotating the input rotates the output" are statements per frequency bin: nothing may be handed from
+    # one bin (or one point) to the next - a warm start makes the result of a bin depend on its neighbour (loop rule shared with C05)
+    from .c05 import batch_loops_rule
+    batch_loops_rule(ctx, "R06.8", p, [("wavespectra.estimators.mem.mem", "point"),
+                                       ("wavespectra.estimators.mem2.mem2_scipy_root_finder", "point"),
+                                       ("wavespectra.estimators.mem2.mem2_newton", "point"),
+                                       ("wavespectra.estimators.mem2._mem2_newton_point", "single")])
+    ctx.require_count("R06.8", 4)
     ctx.require_count("R06.6", 3)
     ctx.require_count("R06.1", 8)
     ctx.require_count("R06.2", 20)
